@@ -1,5 +1,6 @@
 import JunoModel.C12.ProofsTrace
 import JunoModel.C12.ProofsAbstract
+import JunoModel.C12.ProofsTally
 /-!
 C12 — `Exec` refines `Abstract`: every micro-step of the executable machine of a correct validator
 is a transition of that validator in the abstract system (or leaves the abstract state unchanged),
@@ -43,10 +44,10 @@ def Recorded (acts : List Action) (p : Addr) (H : Hist) : Prop :=
 
 theorem setLoc_self (s : Sys) (p : Addr) (l : LState) : setLoc s p l p = l := by simp [setLoc]
 
-theorem micro_refines (E : AEnv) (env : Env) (s : Sys) (m m' : Machine) (a : List Action)
+theorem micro_refines {A : VCChange → Prop} (E : AEnv) (env : Env) (s : Sys) (m m' : Machine) (a : List Action)
     (hv : E.valid = env.valid) (hp : E.proposer = env.proposer)
     (hb : ¬ E.byz m.nodeAddr) (hloc : s.loc m.nodeAddr = absL m)
-    (hsound : VCSound E s m) (hm : XMicro env m a m') (sc : SC m m') (hr : 0 ≤ m'.state.round) :
+    (hsound : VCSound E s m) (hm : XMicro env A m a m') (sc : SC m m') :
     ∃ s', (s' = s ∨ Abs.Step E s s') ∧ s'.loc m.nodeAddr = absL m' ∧ m'.nodeAddr = m.nodeAddr ∧
       (∀ q, q ≠ m.nodeAddr → s'.loc q = s.loc q) ∧ s.hist.le s'.hist ∧ Recorded a m.nodeAddr s'.hist := by
   -- started, whenever the Tendermint variables change and the height was not just started
@@ -57,26 +58,27 @@ theorem micro_refines (E : AEnv) (env : Env) (s : Sys) (m m' : Machine) (a : Lis
     · exact h
     · rw [← hsame]; exact h
   cases hm with
-  | silent _ _ hc hn hs =>
+  | silent _ _ hc hn _ hs =>
     refine ⟨s, Or.inl rfl, by rw [hloc, absL_of_core hc], hn, fun _ _ => rfl, Hist.le_refl _, ?_⟩
     intro x hx
     have := hs x hx
     cases x <;> simp [silentAct] at this <;> trivial
-  | propose _ q hc hn h1 h2 h3 =>
+  | recv _ c _ hc hn _ =>
+    exact ⟨s, Or.inl rfl, by rw [hloc, absL_of_core hc], hn, fun _ _ => rfl, Hist.le_refl _, fun x hx => by cases hx⟩
+  | propose _ q hc hn _ h1 h2 h3 =>
     refine ⟨⟨addProposal s.hist m.nodeAddr (absL m).height (absL m).round q.value, s.loc⟩,
       Or.inr (Abs.Step.propose s m.nodeAddr (absL m) q.value hb hloc), by rw [hloc, absL_of_core hc], hn,
       fun _ _ => rfl, le_addProposal _ _ _ _ _, ?_⟩
     intro x hx
     simp at hx; subst hx
     exact Or.inr ⟨rfl, h1, h2, rfl⟩
-  | start _ r hs hn hc =>
-    have hround : m'.core.round = r := by rw [hc]
+  | start _ r hs hr0 hn _ hc =>
     refine ⟨⟨s.hist, setLoc s m.nodeAddr { absL m with started := true, round := r, step := .propose }⟩,
-      Or.inr (Abs.Step.start s m.nodeAddr (absL m) r hb hloc hs (by rw [← hround]; exact hr)), ?_, hn,
+      Or.inr (Abs.Step.start s m.nodeAddr (absL m) r hb hloc hs hr0), ?_, hn,
       fun q hq => by simp [setLoc, hq], Hist.le_refl _, fun x hx => by cases hx⟩
     show setLoc s m.nodeAddr _ m.nodeAddr = absL m'
     rw [setLoc_self, absL_eq hc]; rfl
-  | newRound _ r hlt hn hc =>
+  | newRound _ r hlt hn _ hc =>
     have hst : m.isHeightStarted = true := by
       apply hstarted
       · intro h; rw [hc] at h
@@ -89,7 +91,7 @@ theorem micro_refines (E : AEnv) (env : Env) (s : Sys) (m m' : Machine) (a : Lis
       fun q hq => by simp [setLoc, hq], Hist.le_refl _, fun x hx => by cases hx⟩
     show setLoc s m.nodeAddr _ m.nodeAddr = absL m'
     rw [setLoc_self, absL_eq hc]; rfl
-  | prevote _ id hstep hg hn hc =>
+  | prevote _ id hstep hg hn _ hc =>
     have hst : m.isHeightStarted = true := by
       apply hstarted
       · intro h; rw [hc] at h
@@ -114,7 +116,7 @@ theorem micro_refines (E : AEnv) (env : Env) (s : Sys) (m m' : Machine) (a : Lis
     · show setLoc s m.nodeAddr _ m.nodeAddr = absL m'
       rw [setLoc_self, absL_eq hc]; rfl
     · intro x hx; simp at hx; subst hx; exact Or.inr ⟨rfl, rfl, rfl, rfl⟩
-  | precommitNil _ hstep hn hc =>
+  | precommitNil _ hstep hn _ hc =>
     have hst : m.isHeightStarted = true := by
       apply hstarted
       · intro h; rw [hc] at h
@@ -129,7 +131,7 @@ theorem micro_refines (E : AEnv) (env : Env) (s : Sys) (m m' : Machine) (a : Lis
     · show setLoc s m.nodeAddr _ m.nodeAddr = absL m'
       rw [setLoc_self, absL_eq hc]; rfl
     · intro x hx; simp at hx; subst hx; exact Or.inr ⟨rfl, rfl, rfl, rfl⟩
-  | precommitValue _ v hstep _ hq hn hc =>
+  | precommitValue _ v hstep _ hq hn _ hc =>
     have hst : m.isHeightStarted = true := by
       apply hstarted
       · intro h; rw [hc] at h
@@ -144,7 +146,7 @@ theorem micro_refines (E : AEnv) (env : Env) (s : Sys) (m m' : Machine) (a : Lis
     · show setLoc s m.nodeAddr _ m.nodeAddr = absL m'
       rw [setLoc_self, absL_eq hc]; rfl
     · intro x hx; simp at hx; subst hx; exact Or.inr ⟨rfl, rfl, rfl, rfl⟩
-  | commit _ q hg hval hq hh hs hn hc =>
+  | commit _ q hg hval hq hh hs hn _ hc =>
     have hst : m.isHeightStarted = true := by
       rcases sc with h | h | h
       · rw [hc] at h
@@ -165,5 +167,204 @@ theorem micro_refines (E : AEnv) (env : Env) (s : Sys) (m m' : Machine) (a : Lis
     · show setLoc s m.nodeAddr _ m.nodeAddr = absL m'
       rw [setLoc_self, absL_eq hc]; rfl
     · intro x hx; simp at hx; subst hx; exact Or.inr ⟨rfl, hh, rfl⟩
+
+
+/-! ## the unconditional simulation: `VCSound` follows from the ballot bookkeeping -/
+
+/-- A message handed to the machine is authentic w.r.t. the history: its sender is Byzantine or
+really sent it (unforgeable signatures; the network may delay, drop, duplicate, reorder). -/
+def AuthC (E : AEnv) (H : Hist) : VCChange → Prop
+  | .vote v t => VJ E H v.height v.round v.id v.sender t
+  | .proposal p => E.byz p.sender ∨ H.proposal p.sender p.height p.round p.value
+  | .futureQ _ _ _ => True
+
+/-- Simulation relation between the abstract system and the machine of correct validator
+`m.nodeAddr`: the abstract local state is the machine's Tendermint variables, and every ballot and
+proposal in the vote counter is justified by the global history. -/
+structure Sim (E : AEnv) (env : Env) (s : Sys) (m : Machine) : Prop where
+  loc : s.loc m.nodeAddr = absL m
+  just : VCJust E s.hist m.vc
+  inv : MInv env m
+
+theorem Sim_sound (E : AEnv) (env : Env) (ok : EnvOK E env) (wf : E.WF) (s : Sys) (m : Machine)
+    (hsim : Sim E env s m) : VCSound E s m := by
+  refine ⟨?_, ?_, ?_⟩
+  · intro r v hq
+    have := VCJust_polka E s.hist env ok wf m.vc hsim.inv.vc.q hsim.just r v hq
+    rw [hsim.inv.cur] at this; exact this
+  · intro r v hq
+    have := VCJust_pcq E s.hist env ok wf m.vc hsim.inv.vc.q hsim.just r v hq
+    rw [hsim.inv.cur] at this; exact this
+  · intro r p hg; exact VCJust_prop E s.hist m.vc hsim.just r p hg
+
+/-- The simulation is stable under steps of the rest of the system (the history only grows, the
+validator's own local state is untouched). -/
+theorem Sim_stable (E : AEnv) (env : Env) (s s' : Sys) (m : Machine) (hsim : Sim E env s m)
+    (hle : s.hist.le s'.hist) (hloc : s'.loc m.nodeAddr = s.loc m.nodeAddr) : Sim E env s' m :=
+  ⟨by rw [hloc]; exact hsim.loc, VCJust_mono E hle hsim.just, hsim.inv⟩
+
+theorem micro_sim {A : VCChange → Prop} (E : AEnv) (env : Env) (ok : EnvOK E env) (wf : E.WF) (s : Sys)
+    (m m' : Machine) (a : List Action) (hb : ¬ E.byz m.nodeAddr) (hsim : Sim E env s m)
+    (hauth : ∀ c, A c → AuthC E s.hist c)
+    (hm : XMicro env A m a m') (sc : SC m m') (hinv' : MInv env m') :
+    ∃ s', (s' = s ∨ Abs.Step E s s') ∧ Sim E env s' m' ∧ m'.nodeAddr = m.nodeAddr ∧
+      (∀ q, q ≠ m.nodeAddr → s'.loc q = s.loc q) ∧ s.hist.le s'.hist ∧ Recorded a m.nodeAddr s'.hist := by
+  obtain ⟨s', hstep, hloc', hn, hoth, hle, hrec⟩ :=
+    micro_refines E env s m m' a ok.valid ok.proposer hb hsim.loc (Sim_sound E env ok wf s m hsim) hm sc
+  refine ⟨s', hstep, ⟨by rw [hn]; exact hloc', ?_, hinv'⟩, hn, hoth, hle, hrec⟩
+  have base := VCJust_mono E hle hsim.just
+  cases hm with
+  | silent _ _ _ _ hvc _ => rw [hvc]; exact base
+  | recv _ c hA _ _ hvc =>
+    rw [hvc]
+    have hau := hauth c hA
+    cases c with
+    | vote v t => exact VCJust_addVote E s'.hist env m.vc v t ok.power base (VJ_mono E hle hau)
+    | proposal p =>
+      exact VCJust_addProposal E s'.hist env m.vc p base (hau.imp (fun x => x) (hle.proposal _ _ _ _))
+    | futureQ h r id => exact VCJust_futureQ E s'.hist m.vc h r id base
+  | propose _ q _ _ hvc h1 h2 h3 =>
+    rw [hvc]
+    have := hrec (.bcastProposal q) (List.mem_singleton.mpr rfl)
+    simp only at this
+    exact VCJust_addProposal E s'.hist env m.vc q base (Or.inr (by rw [h3]; exact this))
+  | start _ r _ _ _ hvc _ => rw [hvc]; exact base
+  | newRound _ r _ _ hvc _ => rw [hvc]; exact base
+  | prevote _ id _ _ _ hvc _ =>
+    rw [hvc]
+    have := hrec (.bcastPrevote ⟨m.state.height, m.state.round, m.nodeAddr, id⟩) (List.mem_singleton.mpr rfl)
+    exact VCJust_addVote E s'.hist env m.vc _ .prevote ok.power base (Or.inr this)
+  | precommitNil _ _ _ hvc _ =>
+    rw [hvc]
+    have := hrec (.bcastPrecommit ⟨m.state.height, m.state.round, m.nodeAddr, none⟩) (List.mem_singleton.mpr rfl)
+    exact VCJust_addVote E s'.hist env m.vc _ .precommit ok.power base (Or.inr this)
+  | precommitValue _ v _ _ _ _ hvc _ =>
+    rw [hvc]
+    have := hrec (.bcastPrecommit ⟨m.state.height, m.state.round, m.nodeAddr, some v⟩) (List.mem_singleton.mpr rfl)
+    exact VCJust_addVote E s'.hist env m.vc _ .precommit ok.power base (Or.inr this)
+  | commit _ q _ _ _ _ _ _ hvc _ =>
+    rw [hvc]; exact VCJust_startNewHeight E s'.hist env m.vc base
+
+theorem micro_MInv {A : VCChange → Prop} (env : Env) (m m' : Machine) (a : List Action)
+    (hm : XMicro env A m a m') (hi : MInv env m) : MInv env m' := by
+  have hgt : ∀ (c : Core), m'.core = c → m'.state.height = c.height := by
+    intro c h; rw [← h]; rfl
+  cases hm with
+  | silent _ _ hc _ hvc _ => exact ⟨by rw [hvc]; exact hi.vc, by rw [hvc, hgt _ hc]; exact hi.cur⟩
+  | recv _ c _ hc _ hvc =>
+    cases c with
+    | vote v t =>
+      have := addVote_inv env m.vc v t hi.vc
+      exact ⟨by rw [hvc]; exact this.1, by rw [hvc, hgt _ hc]; show (m.vc.addVote env v t).1.cur = _; rw [this.2.1]; exact hi.cur⟩
+    | proposal p =>
+      have := addProposal_inv env m.vc p hi.vc
+      exact ⟨by rw [hvc]; exact this.1, by rw [hvc, hgt _ hc]; show (m.vc.addProposal env p).1.cur = _; rw [this.2.1]; exact hi.cur⟩
+    | futureQ h r id =>
+      have := hasFuturePrecommitQuorum_inv env m.vc h r id hi.vc
+      exact ⟨by rw [hvc]; exact this.1, by rw [hvc, hgt _ hc]; show (m.vc.hasFuturePrecommitQuorum h r id).1.cur = _; rw [this.2]; exact hi.cur⟩
+  | propose _ q hc _ hvc _ _ _ =>
+    have := addProposal_inv env m.vc q hi.vc
+    exact ⟨by rw [hvc]; exact this.1, by rw [hvc, hgt _ hc, this.2.1]; exact hi.cur⟩
+  | start _ r _ _ _ hvc hc => exact ⟨by rw [hvc]; exact hi.vc, by rw [hvc, hgt _ hc]; exact hi.cur⟩
+  | newRound _ r _ _ hvc hc => exact ⟨by rw [hvc]; exact hi.vc, by rw [hvc, hgt _ hc]; exact hi.cur⟩
+  | prevote _ id _ _ _ hvc hc =>
+    have := addVote_inv env m.vc ⟨m.state.height, m.state.round, m.nodeAddr, id⟩ .prevote hi.vc
+    exact ⟨by rw [hvc]; exact this.1, by rw [hvc, hgt _ hc, this.2.1]; exact hi.cur⟩
+  | precommitNil _ _ _ hvc hc =>
+    have := addVote_inv env m.vc ⟨m.state.height, m.state.round, m.nodeAddr, none⟩ .precommit hi.vc
+    exact ⟨by rw [hvc]; exact this.1, by rw [hvc, hgt _ hc, this.2.1]; exact hi.cur⟩
+  | precommitValue _ v _ _ _ _ hvc hc =>
+    have := addVote_inv env m.vc ⟨m.state.height, m.state.round, m.nodeAddr, some v⟩ .precommit hi.vc
+    exact ⟨by rw [hvc]; exact this.1, by rw [hvc, hgt _ hc, this.2.1]; exact hi.cur⟩
+  | commit _ q _ _ _ _ _ _ hvc hc =>
+    have := startNewHeight_inv env m.vc hi.vc
+    exact ⟨by rw [hvc]; exact this.1, by rw [hvc, hgt _ hc, this.2, hi.cur]⟩
+
+/-- finitely many transitions of the abstract system -/
+inductive Steps (E : AEnv) : Sys → Sys → Prop
+  | refl (s : Sys) : Steps E s s
+  | tail {s s1 s2 : Sys} : Steps E s s1 → Abs.Step E s1 s2 → Steps E s s2
+
+theorem Steps.trans {E : AEnv} {s s1 s2 : Sys} (h1 : Steps E s s1) (h2 : Steps E s1 s2) : Steps E s s2 := by
+  induction h2 with
+  | refl => exact h1
+  | tail _ hs ih => exact Steps.tail ih hs
+
+theorem Reach_steps (E : AEnv) (h0 : Addr → Height) (s s' : Sys) (hr : Reach E h0 s) (hs : Steps E s s') :
+    Reach E h0 s' := by
+  induction hs with
+  | refl => exact hr
+  | tail _ hstep ih => exact Reach.step ih hstep
+
+theorem AuthC_mono (E : AEnv) {H H' : Hist} (hle : H.le H') {c : VCChange} (h : AuthC E H c) : AuthC E H' c := by
+  cases c with
+  | vote v t => exact VJ_mono E hle h
+  | proposal p => exact h.imp (fun x => x) (hle.proposal _ _ _ _)
+  | futureQ _ _ _ => trivial
+
+theorem Hist.le_trans {H1 H2 H3 : Hist} (h1 : H1.le H2) (h2 : H2.le H3) : H1.le H3 :=
+  ⟨fun a h r v x => h2.proposal a h r v (h1.proposal a h r v x),
+   fun a h r v x => h2.prevote a h r v (h1.prevote a h r v x),
+   fun a h r v x => h2.precommit a h r v (h1.precommit a h r v x),
+   fun a h v x => h2.decision a h v (h1.decision a h v x)⟩
+
+theorem Recorded_mono {acts : List Action} {p : Addr} {H H' : Hist} (hle : H.le H') (h : Recorded acts p H) :
+    Recorded acts p H' := by
+  intro a ha
+  have := h a ha
+  cases a with
+  | bcastProposal q => exact hle.proposal _ _ _ _ this
+  | bcastPrevote v => exact hle.prevote _ _ _ _ this
+  | bcastPrecommit v => exact hle.precommit _ _ _ _ this
+  | commit q => exact hle.decision _ _ _ this
+  | writeWAL _ => trivial
+  | schedule _ _ _ => trivial
+  | triggerSync _ _ => trivial
+
+theorem Recorded_append {a b : List Action} {p : Addr} {H : Hist} (h1 : Recorded a p H) (h2 : Recorded b p H) :
+    Recorded (a ++ b) p H := by
+  intro x hx
+  rcases List.mem_append.mp hx with h | h
+  · exact h1 x h
+  · exact h2 x h
+
+/-- A chain of micro-steps of a correct validator's machine is simulated by transitions of that
+validator in the abstract system. -/
+theorem chain_sim {A : VCChange → Prop} (E : AEnv) (env : Env) (ok : EnvOK E env) (wf : E.WF)
+    (m m' : Machine) (acts : List Action) (hc : XChain env A m acts m') :
+    ∀ (s : Sys), ¬ E.byz m.nodeAddr → Sim E env s m → (∀ c, A c → AuthC E s.hist c) →
+    ∃ s', Steps E s s' ∧ Sim E env s' m' ∧ m'.nodeAddr = m.nodeAddr ∧
+      (∀ q, q ≠ m.nodeAddr → s'.loc q = s.loc q) ∧ s.hist.le s'.hist ∧ Recorded acts m.nodeAddr s'.hist := by
+  induction hc with
+  | nil m0 =>
+    intro s _ hsim _
+    exact ⟨s, Steps.refl s, hsim, rfl, fun _ _ => rfl, Hist.le_refl _, fun a ha => by cases ha⟩
+  | @cons m0 m1 m2 a as hm sc _ ih =>
+    intro s hb hsim hauth
+    obtain ⟨s1, hstep, hsim1, hn1, hoth1, hle1, hrec1⟩ :=
+      micro_sim E env ok wf s m0 m1 a hb hsim hauth hm sc (micro_MInv env m0 m1 a hm hsim.inv)
+    obtain ⟨s2, hsteps, hsim2, hn2, hoth2, hle2, hrec2⟩ :=
+      ih s1 (by rw [hn1]; exact hb) hsim1 (fun c hc => AuthC_mono E hle1 (hauth c hc))
+    refine ⟨s2, ?_, hsim2, by rw [hn2, hn1], ?_, Hist.le_trans hle1 hle2, ?_⟩
+    · rcases hstep with h | h
+      · subst h; exact hsteps
+      · exact Steps.trans (Steps.tail (Steps.refl s) h) hsteps
+    · intro q hq; rw [hoth2 q (by rw [hn1]; exact hq), hoth1 q hq]
+    · exact Recorded_append (Recorded_mono hle2 hrec1) (by rw [hn1] at hrec2; exact hrec2)
+
+/-- **Exec refines Abstract**: one input to the machine of a correct validator. -/
+theorem step_sim (E : AEnv) (env : Env) (ok : EnvOK E env) (wf : E.WF) (s : Sys) (m : Machine) (i : Input)
+    (hb : ¬ E.byz m.nodeAddr) (hsim : Sim E env s m) (hok : InputOK m i)
+    (hauth : ∀ c, RecvOf i c → AuthC E s.hist c) :
+    ∃ s', Steps E s s' ∧ Sim E env s' (m.step env i).1 ∧ (m.step env i).1.nodeAddr = m.nodeAddr ∧
+      (∀ q, q ≠ m.nodeAddr → s'.loc q = s.loc q) ∧ s.hist.le s'.hist ∧
+      Recorded (m.step env i).2 m.nodeAddr s'.hist := by
+  have hc := step_chain (A := RecvOf i) env m i (fun c h => h) hok hsim.inv
+  exact chain_sim E env ok wf m _ _ hc.1 s hb hsim hauth
+
+theorem Sim_init (E : AEnv) (env : Env) (h0 : Addr → Height) (p : Addr) :
+    Sim E env (Sys.init h0) (Machine.new env p (h0 p)) :=
+  ⟨rfl, VCJust_new E _ env _, new_MInv env p (h0 p)⟩
+
 
 end Juno.C12
